@@ -5,12 +5,13 @@ from . import _func, _loss
 def run(tier, seed):
     q = tier == "quick"
     return _func.run(
-        "C03", tier, seed, emitters=[("MC_Loss", _loss.MC % ("C11L", 8), "MC_Loss_C03_spinn"), ("MC_Loss", _loss.MC % ("C03", 4 if q else 8), "MC_Loss_C03")],
+        "C03", tier, seed, emitters=[("MC_Loss", _loss.MC % ("C11L", 8), "MC_Loss_C03_spinn"), ("MC_Loss", _loss.MC % ("C12", 8), "MC_Loss_C03_obsparams"), ("MC_Loss", _loss.MC % ("C03", 4 if q else 8), "MC_Loss_C03")],
         extras=lambda s: [], prepare=_loss.prepare_filtered(("dyn",), 400 if q else 0), sig=_loss.sig,
         rule="TLC enumerates loss kind x residual components 1..3 x scalar/per-component weights x batch size x every subset of the other "
              "configured terms x twin (base, permuted batch, two halves, re-weighted) x evaluate/__call__ x dynamic loss absent; each "
              "structure is instantiated with seeded polynomial networks / residual maps / integer batches and evaluated by the real loss; "
              "expected terms recomputed by LossSemantics.tla; the consequences (permutation invariance, halves, linearity) are checked as "
-             "lemmas of the oracle on the twin records; distinct = distinct structure",
+             "lemmas of the oracle on the twin records; + the structures of the parameter family (C12) that carry an observation batch with "
+             "observed equation parameters (the dynamic term must not see them); distinct = distinct structure",
         assumptions=["polynomial networks and residual maps, integer batches (exact under x64)",
                      "for C03 only the total, the dynamic term and the exact zero of unconfigured terms are compared (other terms: C04 C05)"])
